@@ -132,8 +132,9 @@ func CalculateValidatorFee(valFee sdk.Dec, amountToClaim sdk.Coin) (sdk.Coin, sd
 
 	if valFee.GT(sdk.NewDecFromInt(sdk.NewIntFromUint64(0))) {
 		decCoin := sdk.NewDecCoinFromCoin(amountToClaim)
-		valFeeAmount := decCoin.Amount.Mul(valFee).TruncateInt64()
-		valFeeCoin = sdk.NewCoin(amountToClaim.Denom, sdk.NewIntFromUint64(uint64(valFeeAmount)))
+		// the fee of a large release does not fit an int64 (TruncateInt64 panics)
+		valFeeAmount := decCoin.Amount.Mul(valFee).TruncateInt()
+		valFeeCoin = sdk.NewCoin(amountToClaim.Denom, valFeeAmount)
 		finalClaimCoin = amountToClaim.Sub(valFeeCoin)
 	} else {
 		valFeeCoin = sdk.NewCoin(amountToClaim.Denom, sdk.NewIntFromUint64(0))
